@@ -12,6 +12,8 @@ FILES = {
     "zz_verif_c08_directed_test.go": "C08/directed_test.go",
     "zz_verif_c08_hostile_test.go": "C08/hostile_test.go",
     "zz_verif_c08_safe_test.go": "C08/safe_test.go",
+    "zz_verif_c08_multikey_test.go": "C08/multikey_test.go",
+    "zz_verif_c08_sizers_test.go": "C08/sizers_test.go",
 }
 
 
@@ -45,6 +47,7 @@ class P(vlib.Prop):
     instance_obligations = []
     harness_module = "C08.Harness"
     case_type = "case"
+    check_fn = "check_all"   # model agreement AND the clause checker over the observed behaviour (Harness.prop_ok_known)
     shard = 100
     harnesses = [
         vlib.Harness("codec", MOD, PKG, FILES, "^TestVerifC08$", "pprofileotlp", timeout=1500),
@@ -61,7 +64,7 @@ class P(vlib.Prop):
             "model accepts), 4 value->JSON tree, 5 JSON tree->value incl. the alternate forms (one-sided). A case is non-trivial when the "
             "encoding has > 2 bytes / the input is non-empty; distinct = distinct case terms.")
     trusted_base = [
-        "Coq 8.16.1 kernel + vm_compute (coqc); no axioms (Print Assumptions: closed under the global context for all 35 theorems)",
+        "Coq 8.16.1 kernel + vm_compute (coqc); no axioms (Print Assumptions: closed under the global context for all 43 theorems)",
         "translator T1 (tools/go2coq, props/C08/t1_spec.json): the ten sovX helpers, TraceID/SpanID/ProfileID.Size and the typed enum constants are read from the current source; math/bits.Len64 is taken to be N.size",
         "schema translator: harness/C08/schema_test.go reads struct tags, XXX_OneofWrappers and Go field types of pdata/internal/data/protogen/** by reflection on every run and probes each message's emission order by marshalling; validated by the byte-exact correspondence",
         "JSON decoder table: obtained on every run by running the real jsoniter decoders on one minimal document per message x key x token form (harness/C08/jsonmodel_test.go); validated by case kind 5",
@@ -73,10 +76,59 @@ class P(vlib.Prop):
         "a Go slice is shorter than 2^64 bytes (hypothesis size < 2^64 of proto_roundtrip)",
         "values are well-typed trees over the schema (canonical); strings hold what the generator can produce (valid UTF-8) for the JSON clauses",
         "JSON can express one NaN: the JSON theorems and oracles are stated for doubles that are not NaN or are the canonical NaN",
-        "objects in JSON documents have no duplicate keys and at most one spelling of a key (the model is document-directed like the code, the correspondence only feeds such documents)",
+        "JSON objects are processed entry by entry in document order (duplicate keys, both spellings and several oneof members are part of the modelled and exercised space since round 4)",
     ]
 
+    CLAUSES = ["size", "roundtrip", "rebytes", "fixpoint"]
+
+    def clause_search(self, ctx):
+        """Failing-input search, step 1: every case on which check_all fails is diagnosed in Coq (Harness.diag =
+        [model agrees; clause size; roundtrip; rebytes; fixpoint; payload canonical; clauses-or-known]).  A case whose
+        OBSERVED behaviour violates a clause (independently of the model) becomes an oracle failure with that
+        case as the failing input; a pure model/implementation disagreement stays a disagreement."""
+        import re
+        keep = []
+        for mm in ctx.mismatches[:12]:
+            if len(mm["term"]) > 60000:
+                keep.append(mm)
+                continue
+            out = vlib.coq_eval_term(ctx, self.harness_module, "diag (%s)" % mm["term"])
+            flags = re.findall(r"\b(true|false)\b", out)
+            if len(flags) < 7:
+                keep.append(mm)
+                continue
+            model_ok, canon, allok = flags[0] == "true", flags[5] == "true", flags[6] == "true"
+            bad = [self.CLAUSES[i] for i in range(4) if flags[1 + i] == "false"]
+            if bad and not allok:
+                kind = mm["term"].split()[1] if mm["term"].startswith("mkcase") else "?"
+                names = {"size": "Size = len(Marshal)", "roundtrip": "decode(encode v) = v", "rebytes": "re-encoding / JSON->protobuf gives the same bytes", "fixpoint": "what decodes re-encodes to a fixed point"}
+                for cl in bad:
+                    ctx.oracle.append({"kind": "clause-" + cl, "term": mm["term"], "harness": mm["harness"],
+                                       "detail": "the OBSERVED behaviour of the implementation on this case (kind %s) violates the clause '%s' (Coq checker Harness.prop_ok, sound and complete for the clause: prop_ok_sound; payload canonical: %s; model agrees on the case: %s)" % (kind, names[cl], canon, model_ok)})
+                if not model_ok:
+                    keep.append(mm)
+            else:
+                keep.append(mm)
+        ctx.mismatches = keep + ctx.mismatches[12:]
+
+    def obligation_search(self, ctx):
+        """Failing-input search, step 2: when an obligation over a translated table / function is broken, say on
+        which argument of its finite domain the generated and the hand-written definitions differ (the directed
+        passes (F)/(G) run the implementation on every field and on both sides of every varint boundary, so the
+        oracle failures of this run carry the concrete input)."""
+        if not any("coq proof" in w for w, _ in ctx.broken):
+            return
+        exprs = {
+            "decoder table: fields of reachable messages without a (complete) decoder entry [(message, field number)]": "uncovered OtlpSchema OtlpJsonDecoders OtlpJsonReachable",
+        }
+        for what, e in exprs.items():
+            out = vlib.coq_eval_term(ctx, self.harness_module, e)
+            ctx.notes.append("obligation search: %s = %s" % (what, out[:600]))
+            ctx.log("obligation search:", what, "=", out[:300])
+
     def extra_checks(self, ctx):
+        self.clause_search(ctx)
+        self.obligation_search(ctx)
         """A panic inside the harness code itself (marker VERIF-HARNESS-PANIC, see harness/C08/safe_test.go) is a
         bug of the check, not a statement about the code: say so in the broken-entry (implementation panics
         are oracle kind 'panic' with their input and never end the run)."""
